@@ -45,6 +45,8 @@ fn build_barrier(raw: &Raw, droppable: bool) -> Scenario {
         b.s.prelude.push(Op::Subscribe { store: s, sub });
     }
     // producers
+    let mut late = 0;
+    let mut late_iter = false;
     for ops in raw.threads.iter() {
         let th = b.thread();
         for r in ops {
@@ -64,6 +66,23 @@ fn build_barrier(raw: &Raw, droppable: bool) -> Scenario {
                     Op::DispatchTask { store: s, eff: e }
                 }
                 14 => Op::GetState { store: s },
+                // a client (of a clone, for the droppable flavour) that registers something while
+                // the stop / drop may be under way: it must still be released exactly once
+                15 if (r.k >> 4) % 4 == 0 && late < 3 => {
+                    late += 1;
+                    let sub = b.sub(SubKind::Direct);
+                    Op::Subscribe { store: s, sub }
+                }
+                15 if (r.k >> 4) % 4 == 1 && late < 3 => {
+                    late += 1;
+                    let sub = b.sub(SubKind::Channeled { cap: 1 + (r.a % 3) as usize, pol: Pol::Block, default_ctor: r.a % 5 == 0 });
+                    Op::Subscribe { store: s, sub }
+                }
+                15 if (r.k >> 4) % 4 == 2 && !late_iter => {
+                    late_iter = true;
+                    let it = b.iter_id();
+                    Op::Iter { store: s, it, consume: Consume::UntilNone, ready: None }
+                }
                 _ => Op::Stall(stall_of(r.a)),
             };
             b.s.threads[th].push(op);
@@ -270,16 +289,26 @@ fn check_barrier(id: &'static str, scn: &Scenario, h: &History) -> Outcome {
         // second stop returned (it is in the log) - nothing to add beyond (c)
         if id == "C15" {
             // subscribers released: every whole-run direct/channeled subscriber got on_unsubscribe before the drop returned
+            // ... and so did every subscriber registered through a clone while the drop was under
+            // way or after it: once the drop and its own registration have both returned
             for (sub, iv) in &sd.subs {
-                if iv.unsub_inv.is_some() || iv.add_ret.map(|x| x > si).unwrap_or(true) {
+                let Some(ar) = iv.add_ret else { continue };
+                if iv.unsub_inv.is_some() {
                     continue;
                 }
                 if matches!(d.sub_kind(*sub), SubKind::Selector { .. }) {
                     continue;
                 }
-                let n = h.recs[..=sr].iter().filter(|r| matches!(&r.ev, Ev::Unsub { sub: s2 } if s2 == sub)).count();
+                let by = sr.max(ar);
+                let n = h.recs[..=by].iter().filter(|r| matches!(&r.ev, Ev::Unsub { sub: s2 } if s2 == sub)).count();
                 if n != 1 {
-                    out.viol(format!("subscriber {} received on_unsubscribe {} times before the drop returned (expected exactly once)", sub, n));
+                    out.viol(format!(
+                        "subscriber {} (registration returned at @{}) had received on_unsubscribe {} times when the drop (returned at @{}) and its registration had both returned (expected exactly once)",
+                        sub, ar, n, sr
+                    ));
+                }
+                if ar > si {
+                    out.class("subscriber-registered-during-or-after-the-drop");
                 }
             }
         }
